@@ -130,6 +130,12 @@ def enumerate_cases(tier: str):
         for fault in ("none", "body", "cancel-body"):
             for k, T in ((0, None), (9, None), (2, 901)):
                 yield {"kind": kind, "fault": fault, "file": "registry", "k": k, "T": T, "mutate": True, "new_loop": True}
+    # the MQTT client's goodbye to the broker fails with something that is no MqttError (the socket layer's OSError), is refused with an MqttError,
+    # or is never acknowledged (the leaving task is cancelled 5 s later): the listener task of the client is gone all the same
+    for fault in ("disconnect-oserror", "body+disconnect-oserror", "disconnect-mqtterror", "disconnect-hang"):
+        for initial in ("missing", "registry"):
+            for k, T in ((0, None), (3, None), (9, None), (12, None), (2, 901), (2, 1801)):
+                yield {"kind": "mqtt", "fault": fault, "file": initial, "k": k, "T": T, "mutate": True}
     # a second gateway in the same loop keeps saving on schedule whatever happens to this one
     for kind in KINDS:
         for fault in FAULTS:
@@ -618,7 +624,7 @@ def run_case(case: dict) -> Outcome:
                     # the application task is cancelled for real (task.cancel(), asyncio.timeout, Ctrl-C under asyncio.run)
                     me.cancel()
                     await asyncio.sleep(3600)
-                if "body" in fault:
+                if fault.startswith("body"):
                     raise _make_exc(case.get("body_exc", "BodyError"))
         except BaseException as err:  # noqa: BLE001
             caught = err
@@ -665,6 +671,10 @@ def run_case(case: dict) -> Outcome:
             return fail(f"exit:{phase}:body-error-replaced-by-{type(caught).__name__}", f"{where}: the body raised {body_cls.__name__} but {caught!r} left the context")
         if fault == "disconnect" and not isinstance(caught, TransportError):
             return fail(f"exit:{phase}:disconnect-error-became-{type(caught).__name__}", f"{where}: disconnect raised TransportFailedError but {caught!r} left the context")
+        if fault == "disconnect-oserror" and (caught is None or isinstance(caught, asyncio.CancelledError)):
+            return fail(f"exit:{phase}:disconnect-error-swallowed", f"{where}: the broker goodbye raised OSError but {caught!r} left the context")
+        if fault == "disconnect-mqtterror" and caught is not None:
+            return fail(f"exit:{phase}:raised-{type(caught).__name__}", f"{where}: {caught!r} left the context")
         if fault == "body+disconnect" and not isinstance(caught, (body_cls, TransportError)):
             return fail(f"exit:{phase}:raised-{type(caught).__name__}", f"{where}: {caught!r} left the context")
         if isinstance(caught, Deadlock):
